@@ -25,12 +25,12 @@ ASSUMPTIONS = [
 
 
 def check(ctx):
-    sched_rel.check_rel(ctx, {'REL-1', 'REL-2', 'REL-3', 'REL-4'})
-    sched_rel.check_enq(ctx)
+    ctx.run(sched_rel.check_rel, {'REL-1', 'REL-2', 'REL-3', 'REL-4'})
+    ctx.run(sched_rel.check_enq)
     shared = sched_worker.analyse_worker(ctx)
-    sched_worker.check_wrk2(ctx, shared)
-    sched_worker.check_wrk1(ctx, shared)
-    sched_worker.check_raw_lock(ctx, shared)
+    ctx.run(sched_worker.check_wrk2, shared)
+    ctx.run(sched_worker.check_wrk1, shared)
+    ctx.run(sched_worker.check_raw_lock, shared)
 
 
 from ..variants import sched as _v   # noqa: E402
